@@ -1,7 +1,575 @@
-//! C17: not built yet.
-use anyhow::{bail, Result};
-use serde_json::Value;
+//! C17: partial and replaying visitors observe the same facts as a full read.
+//!
+//! ops (classes are named, never shipped as bytes):
+//!   {"op":"mask",  "cls":C, "mask":M, "declines":D, "consumer":"rec"|"unit"|"simple"}
+//!        -> {file_len, full:{ok,events,rest}, masked:{ok,events,rest,err}, skeleton}
+//!   {"op":"concat","classes":[C..], "mask":M, "declines":D, "consumer":..}
+//!        -> {lens:[n..], fulls:[{ok,events}..], reads:[{ok,events,pos,behind,skeleton}..]}   one stream, one read per class
+//!   {"op":"accept","cls":C, "mask":M, "declines":D}
+//!        -> {read:{ok,events}, replay:{ok,events,skeleton}, tree_equal, tree_diff:[path..]}
+//!   {"op":"scan"}  (tooling, not part of the check) -> sizes of every catalogue class
+//! C = "corpus:<id>" | "sample:<id>" | {"shape": {"cattrs":[..], "fields":[[..]..], "methods":[{"attrs":[..],"code":[..]}..], "rcs":[[..]..]}}
+//! M = {"class":{flag:bool..},"field":{..},"method":{..},"code":{..},"rc":{..}} (every flag), D = {"classes","fields","methods","codes","rcs": [ordinal..]}
+//!
+//! The driver only runs the reads and ships the recorded event streams, stream positions and lengths. The
+//! judgement (masked = Filter(full, mask, declines), position = end of this class, k-th read = k-th class,
+//! replay = read up to commutation of independent events) is made by Trace_Visit.tla; for vectors of
+//! MC_Visit.tla the expected event *skeleton* (events without payload digests) comes from the model.
+use std::cell::RefCell;
+use std::collections::{BTreeMap, HashMap};
+use std::io::Cursor;
+use std::rc::Rc;
+use std::sync::OnceLock;
+use anyhow::{anyhow, bail, Context, Result};
+use rand::rngs::StdRng;
+use rand::seq::SliceRandom;
+use rand::{Rng, SeedableRng};
+use serde_json::{json, Map, Value};
+use duke::tree::class::ClassFile;
 
-pub fn exec(_v: &Value) -> Result<Value> { bail!("C17: driver not built") }
+#[path = "c17_visitors.rs"]
+pub mod visitors;
+use visitors::*;
 
-pub fn gen(_seed: u64, _n: usize) -> Result<Vec<Value>> { bail!("C17: driver not built") }
+// ------------------------------------------------------------------------------------------------
+// classes by id
+
+fn catalogue() -> &'static BTreeMap<String, Vec<u8>> {
+	static CAT: OnceLock<BTreeMap<String, Vec<u8>>> = OnceLock::new();
+	CAT.get_or_init(|| {
+		let mut m = BTreeMap::new();
+		for (id, bytes) in cfkit::corpus::corpus_classes("thorough") {
+			m.insert(format!("corpus:{id}"), bytes);
+		}
+		for (id, bytes) in cfkit::duke_diff::sample_inputs() {
+			m.insert(format!("sample:{}", id.trim_start_matches("sample/")), bytes);
+		}
+		m
+	})
+}
+
+thread_local! {
+	static SHAPES: RefCell<HashMap<String, Rc<Vec<u8>>>> = RefCell::new(HashMap::new());
+}
+
+fn class_bytes(c: &Value) -> Result<Rc<Vec<u8>>> {
+	if let Some(id) = c.as_str() {
+		return catalogue().get(id).map(|b| Rc::new(b.clone())).ok_or_else(|| anyhow!("C17: unknown class id {id}"));
+	}
+	let shape = c.get("shape").context("C17: cls must be an id or {shape}")?;
+	let key = shape.to_string();
+	if let Some(b) = SHAPES.with(|s| s.borrow().get(&key).cloned()) {
+		return Ok(b);
+	}
+	let b = Rc::new(shape_bytes(shape)?);
+	SHAPES.with(|s| s.borrow_mut().insert(key, b.clone()));
+	Ok(b)
+}
+
+// ------------------------------------------------------------------------------------------------
+// abstract shape -> real class file (facts assembled by cfkit, attribute tables then put into the shape's order)
+
+fn names(v: &Value) -> Result<Vec<String>> {
+	match v {
+		Value::Array(a) => a.iter().map(|x| x.as_str().map(str::to_owned).context("attribute kind")).collect(),
+		Value::Object(o) if o.is_empty() => Ok(vec![]),
+		_ => bail!("C17: list of attribute kinds expected, got {v}"),
+	}
+}
+
+fn list(v: &Value) -> Vec<Value> {
+	v.as_array().cloned().unwrap_or_default()
+}
+
+const ANNO: &str = "Lk/A;";
+
+fn attr_facts(level: &str, kinds: &[String], rcs: &[Value]) -> Result<Value> {
+	let mut a = Map::new();
+	let mut unknown = vec![];
+	let anno = || json!([{"type": ANNO, "pairs": [["v", {"I": 1}]]}]);
+	for k in kinds {
+		let v = match (level, k.as_str()) {
+			(_, "Deprecated") | (_, "Synthetic") => json!(true),
+			(_, "Signature") => json!(if level == "method" { "()V" } else { "Ljava/lang/Object;" }),
+			(_, "RuntimeVisibleAnnotations") | (_, "RuntimeInvisibleAnnotations") => anno(),
+			(_, "RuntimeVisibleTypeAnnotations") | (_, "RuntimeInvisibleTypeAnnotations") => {
+				let target = match level {
+					"class" => json!({"kind": "class_extends", "index": 65535}),
+					"field" | "rc" => json!({"kind": "field"}),
+					"method" => json!({"kind": "method_return"}),
+					_ => json!({"kind": "new", "insn": 0}),
+				};
+				json!([{"target": target, "path": [], "type": ANNO, "pairs": []}])
+			},
+			("class", "SourceFile") => json!("S.java"),
+			("class", "SourceDebugExtension") => json!("SMAP"),
+			("class", "InnerClasses") => json!([{"inner": "k/S$I", "outer": "k/S", "name": "I", "access": 1}]),
+			("class", "EnclosingMethod") => json!({"class": "k/O", "method": {"name": "m", "desc": "()V"}}),
+			("class", "NestHost") => json!("k/O"),
+			("class", "NestMembers") => json!(["k/S$I"]),
+			("class", "PermittedSubclasses") => json!(["k/T"]),
+			("class", "Record") => {
+				let mut comps = vec![];
+				for (i, rc) in rcs.iter().enumerate() {
+					comps.push(json!({"name": format!("r{}", i + 1), "desc": "I", "attrs": attr_facts("rc", &names(rc)?, &[])?}));
+				}
+				Value::Array(comps)
+			},
+			("class", "BootstrapMethods") => {
+				a.insert("unreferenced_bootstrap".into(), json!([{"bsm": {"kind": "invokestatic", "owner": "k/B", "name": "b", "desc": "()V", "itf": false}, "args": [{"int": 7}]}]));
+				continue;
+			},
+			("field", "ConstantValue") => json!({"int": 1}),
+			("method", "Exceptions") => json!(["java/lang/Exception"]),
+			("method", "AnnotationDefault") => json!({"I": 1}),
+			("method", "MethodParameters") => json!([{"name": "p", "access": 0}]),
+			("method", "RuntimeVisibleParameterAnnotations") | ("method", "RuntimeInvisibleParameterAnnotations") => json!([anno()]),
+			("code", "LineNumberTable") => json!([[0, 1]]),
+			("code", "LocalVariableTable") => json!([{"start": 0, "end": 1, "name": "this", "desc": "Lk/S;", "slot": 0}]),
+			("code", "LocalVariableTypeTable") => json!([{"start": 0, "end": 1, "name": "this", "sig": "Lk/S;", "slot": 0}]),
+			("code", "StackMapTable") => json!([{"at": 0, "locals": [{"object": "k/S"}], "stack": []}]),
+			(_, n) if n.starts_with('X') => {
+				unknown.push(json!({"name": n, "bytes": "0102030405"}));
+				continue;
+			},
+			(l, n) => bail!("C17: attribute kind {n} is not modelled at level {l}"),
+		};
+		a.insert(k.clone(), v);
+	}
+	if !unknown.is_empty() {
+		cfkit::facts::canon_sort(&mut unknown);
+		a.insert("unknown".into(), Value::Array(unknown));
+	}
+	Ok(Value::Object(a))
+}
+
+fn shape_facts(shape: &Value) -> Result<Value> {
+	let rcs = list(&shape["rcs"]);
+	let mut fields = vec![];
+	for (i, f) in list(&shape["fields"]).iter().enumerate() {
+		fields.push(cfkit::samples::member(0x18, &format!("f{}", i + 1), "I", attr_facts("field", &names(f)?, &[])?));
+	}
+	let mut methods = vec![];
+	for (i, m) in list(&shape["methods"]).iter().enumerate() {
+		let kinds = names(&m["attrs"])?;
+		let mut attrs = attr_facts("method", &kinds.iter().filter(|k| *k != "Code").cloned().collect::<Vec<_>>(), &[])?;
+		if kinds.iter().any(|k| k == "Code") {
+			let nested = attr_facts("code", &names(&m["code"])?, &[])?;
+			attrs["Code"] = cfkit::samples::code(0, 1, vec![cfkit::samples::op("return")], vec![], nested);
+		}
+		methods.push(cfkit::samples::member(if attrs.get("Code").is_some() { 0x1 } else { 0x401 }, &format!("m{}", i + 1), "()V", attrs));
+	}
+	let attrs = attr_facts("class", &names(&shape["cattrs"])?, &rcs)?;
+	Ok(cfkit::samples::class([61, 0], 0x21, "k/S", Some("java/lang/Object"), fields, methods, attrs))
+}
+
+/// One attribute table of the file: (path of the table, [(name, start, end)..] in file order).
+fn attr_tables(bytes: &[u8]) -> Result<Vec<(String, Vec<(String, usize, usize)>)>> {
+	let p = cfkit::parse::parse_class(bytes).map_err(|e| anyhow!("cfkit rejects the assembled shape: {e}"))?;
+	let mut utf8: HashMap<usize, String> = HashMap::new();
+	for s in &p.spans {
+		if s.role == "cp_utf8_bytes" {
+			if let Some(i) = s.path.strip_prefix("cp[").and_then(|x| x.strip_suffix(']')).and_then(|x| x.parse::<usize>().ok()) {
+				utf8.insert(i, String::from_utf8_lossy(&bytes[s.off..s.off + s.len]).into_owned());
+			}
+		}
+	}
+	let mut tables: Vec<(String, Vec<(String, usize, usize)>)> = vec![];
+	for s in &p.spans {
+		if s.role != "attr_name" {
+			continue;
+		}
+		let cut = s.path.rfind("attr[").context("attr path")?;
+		let table = s.path[..cut].to_owned();
+		let idx = u16::from_be_bytes([bytes[s.off], bytes[s.off + 1]]) as usize;
+		let len = u32::from_be_bytes([bytes[s.off + 2], bytes[s.off + 3], bytes[s.off + 4], bytes[s.off + 5]]) as usize;
+		let name = utf8.get(&idx).cloned().unwrap_or_default();
+		match tables.iter_mut().find(|t| t.0 == table) {
+			Some(t) => t.1.push((name, s.off, s.off + 6 + len)),
+			None => tables.push((table, vec![(name, s.off, s.off + 6 + len)])),
+		}
+	}
+	Ok(tables)
+}
+
+/// Puts the attributes of every table into the order the shape asks for (a byte permutation inside each table;
+/// the facts are unchanged, which is checked with cfkit).
+fn shape_bytes(shape: &Value) -> Result<Vec<u8>> {
+	let facts = shape_facts(shape)?;
+	let bytes = cfkit::asm::assemble(&facts, &cfkit::asm::Encoding::default()).map_err(|e| anyhow!("cfkit cannot assemble the shape: {e}"))?;
+	let mut want: HashMap<String, Vec<String>> = HashMap::new();
+	want.insert(String::new(), names(&shape["cattrs"])?);
+	for (i, f) in list(&shape["fields"]).iter().enumerate() {
+		want.insert(format!("field[{i}]."), names(f)?);
+	}
+	for (i, m) in list(&shape["methods"]).iter().enumerate() {
+		want.insert(format!("method[{i}]."), names(&m["attrs"])?);
+		want.insert(format!("method[{i}].Code."), names(&m["code"])?);
+	}
+	let tables = attr_tables(&bytes)?;
+	let mut out = bytes.clone();
+	// inner tables first: an outer blob is moved with its (already ordered) content
+	let mut order: Vec<usize> = (0..tables.len()).collect();
+	order.sort_by_key(|i| std::cmp::Reverse(tables[*i].0.len()));
+	for ti in order {
+		let (path, blobs) = &tables[ti];
+		let wanted: Vec<String> = if let Some(w) = want.get(path) {
+			w.clone()
+		} else if let Some(rest) = path.strip_prefix("attr[").and_then(|r| r.split_once("]:Record.component[")) {
+			let k: usize = rest.1.trim_end_matches("].").parse().context("record component index")?;
+			names(&list(&shape["rcs"])[k])?
+		} else {
+			bail!("C17: unexpected attribute table {path}");
+		};
+		if wanted.len() != blobs.len() {
+			bail!("C17: table {path:?} has {} attributes, the shape lists {}", blobs.len(), wanted.len());
+		}
+		let (lo, hi) = (blobs[0].1, blobs[blobs.len() - 1].2);
+		let mut region = Vec::with_capacity(hi - lo);
+		for w in &wanted {
+			let b = blobs.iter().find(|b| &b.0 == w).with_context(|| format!("C17: attribute {w} not in table {path:?}"))?;
+			region.extend_from_slice(&out[b.1..b.2]);
+		}
+		if region.len() != hi - lo {
+			bail!("C17: duplicate attribute names in table {path:?}");
+		}
+		// the blobs of this table still sit at their original offsets in `out` (only inner tables were touched)
+		out[lo..hi].copy_from_slice(&region);
+	}
+	let back = cfkit::parse::parse_class_facts_only(&out).map_err(|e| anyhow!("cfkit rejects the reordered shape: {e}"))?;
+	if back.facts != facts {
+		bail!("C17: reordering the attribute tables changed the facts");
+	}
+	for (path, blobs) in attr_tables(&out)? {
+		if let Some(w) = want.get(&path) {
+			if &blobs.iter().map(|b| b.0.clone()).collect::<Vec<_>>() != w {
+				bail!("C17: table {path:?} did not end up in the requested order");
+			}
+		}
+	}
+	Ok(out)
+}
+
+// ------------------------------------------------------------------------------------------------
+// running the reads
+
+struct Run {
+	ok: bool,
+	err: String,
+	events: Vec<Ev>,
+	pos: u64,
+	trees: Vec<ClassFile>,
+}
+
+fn events_json(events: &[Ev]) -> Value {
+	Value::Array(events.iter().map(Ev::to_json).collect())
+}
+
+/// The events without their payload digests, as rows [lvl, ev, c, mk, mi, vis, frame]. Label definitions
+/// (visit_last_label) are left out: the specification does not count them as items (Visit.tla, Items), so a
+/// skeleton can be compared row by row with the model's.
+fn skeleton(events: &[Ev]) -> Value {
+	Value::Array(events.iter().filter(|e| !(e.lvl == "code" && e.ev == "visit_last_label"))
+		.map(|e| json!([e.lvl, e.ev, e.c, e.mk, e.mi, e.vis, e.frame])).collect())
+}
+
+/// `n` successive reads on one stream with a recording visitor; stops at the first failing read.
+/// Returns per read (ok, error, events of that read, stream position afterwards) and the trees built.
+fn read_stream(bytes: &[u8], n: usize, mask: &Mask, declines: &Declines, consumer: &str) -> Result<(Vec<Run>, Vec<ClassFile>)> {
+	let sh = Shared::new(mask.clone(), declines.clone());
+	let mut cur = Cursor::new(bytes);
+	let mut runs = vec![];
+	let mut trees = vec![];
+	enum V { Rec(Recording<Vec<ClassFile>>), Unit, Simple(SimpleMulti) }
+	let mut v = match consumer {
+		"rec" => V::Rec(Recording::<Vec<ClassFile>>::new(sh.clone())),
+		"unit" => V::Unit,
+		"simple" => V::Simple(SimpleMulti::new(sh.clone())),
+		c => bail!("C17: unknown consumer {c}"),
+	};
+	for _ in 0..n {
+		let before = sh.log.borrow().len();
+		let r = match v {
+			V::Rec(x) => duke::read_class_multi(&mut cur, x).map(V::Rec),
+			V::Unit => duke::read_class_multi(&mut cur, ()).map(|()| V::Unit),
+			V::Simple(x) => duke::read_class_multi(&mut cur, x).map(V::Simple),
+		};
+		let events = sh.log.borrow()[before..].to_vec();
+		match r {
+			Ok(next) => {
+				runs.push(Run { ok: true, err: String::new(), events, pos: cur.position(), trees: vec![] });
+				v = next;
+			},
+			Err(e) => {
+				runs.push(Run { ok: false, err: format!("{e:#}"), events, pos: cur.position(), trees: vec![] });
+				return Ok((runs, trees));
+			},
+		}
+	}
+	if let V::Rec(x) = v {
+		trees = x.inner;
+	}
+	Ok((runs, trees))
+}
+
+fn read_one(bytes: &[u8], mask: &Mask, declines: &Declines, consumer: &str) -> Result<Run> {
+	let (mut runs, trees) = read_stream(bytes, 1, mask, declines, consumer)?;
+	let mut r = runs.pop().context("one run")?;
+	r.trees = trees;
+	Ok(r)
+}
+
+fn err_head(e: &str) -> String {
+	e.chars().take(160).collect()
+}
+
+fn consumer_of(v: &Value) -> &str {
+	v.get("consumer").and_then(Value::as_str).unwrap_or("rec")
+}
+
+pub fn exec(v: &Value) -> Result<Value> {
+	let op = v["op"].as_str().context("op")?;
+	match op {
+		"mask" => {
+			let bytes = class_bytes(&v["cls"])?;
+			let (mask, declines) = (Mask::from_json(&v["mask"])?, Declines::from_json(&v["declines"])?);
+			let full = read_one(&bytes, &Mask::all(), &Declines::default(), "rec")?;
+			let m = read_one(&bytes, &mask, &declines, consumer_of(v))?;
+			let len = bytes.len() as i64;
+			Ok(json!({
+				"file_len": len,
+				"full": {"ok": full.ok, "events": events_json(&full.events), "rest": len - full.pos as i64},
+				"masked": {"ok": m.ok, "events": events_json(&m.events), "rest": len - m.pos as i64, "err": err_head(&m.err)},
+				"skeleton": skeleton(&m.events),
+			}))
+		},
+		"concat" => {
+			let classes = v["classes"].as_array().context("classes")?;
+			let (mask, declines) = (Mask::from_json(&v["mask"])?, Declines::from_json(&v["declines"])?);
+			let mut stream = vec![];
+			let mut lens = vec![];
+			let mut fulls = vec![];
+			for c in classes {
+				let b = class_bytes(c)?;
+				let full = read_one(&b, &Mask::all(), &Declines::default(), "rec")?;
+				fulls.push(json!({"ok": full.ok, "events": events_json(&full.events)}));
+				lens.push(b.len() as i64);
+				stream.extend_from_slice(&b);
+			}
+			let (runs, _) = read_stream(&stream, classes.len(), &mask, &declines, consumer_of(v))?;
+			let mut end = 0i64;
+			let mut reads = vec![];
+			for (k, r) in runs.iter().enumerate() {
+				end += lens[k];
+				reads.push(json!({"ok": r.ok, "events": events_json(&r.events), "pos": r.pos, "behind": end - r.pos as i64, "err": err_head(&r.err)}));
+			}
+			Ok(json!({"lens": lens, "fulls": fulls, "reads": reads,
+				"oks": runs.iter().map(|r| r.ok).collect::<Vec<_>>(),
+				"behinds": reads.iter().map(|r| r["behind"].clone()).collect::<Vec<_>>(),
+				"skeletons": runs.iter().map(|r| skeleton(&r.events)).collect::<Vec<_>>()}))
+		},
+		"accept" => {
+			let bytes = class_bytes(&v["cls"])?;
+			let (mask, declines) = (Mask::from_json(&v["mask"])?, Declines::from_json(&v["declines"])?);
+			// the in-memory class: duke's own full read
+			let tree = match duke::read_class(&mut Cursor::new(&bytes[..])) {
+				Ok(t) => t,
+				Err(e) => return Ok(json!({"tree": false, "err": err_head(&format!("{e:#}"))})),
+			};
+			let read = read_one(&bytes, &mask, &declines, "rec")?;
+			let sh = Shared::new(mask.clone(), declines.clone());
+			let replayed = tree.accept(Recording::<Vec<ClassFile>>::new(sh.clone()));
+			let events = sh.events();
+			let (rok, rerr, rtrees) = match replayed {
+				Ok(x) => (true, String::new(), x.inner),
+				Err(e) => (false, format!("{e:#}"), vec![]),
+			};
+			// the class rebuilt by the replay against the class built by the read with the same visitor
+			let (tree_equal, tree_diff) = compare_trees(&read.trees, &rtrees);
+			Ok(json!({
+				"tree": true,
+				"read": {"ok": read.ok, "events": events_json(&read.events), "err": err_head(&read.err)},
+				"replay": {"ok": rok, "events": events_json(&events), "err": err_head(&rerr), "skeleton": skeleton(&events)},
+				"tree_equal": tree_equal, "tree_diff": tree_diff,
+			}))
+		},
+		"scan" => Ok(scan()),
+		_ => bail!("C17: unknown op {op}"),
+	}
+}
+
+/// Facts of the classes built by two visitors (cfkit's projection of duke's tree), and where they differ.
+fn compare_trees(a: &[ClassFile], b: &[ClassFile]) -> (bool, Value) {
+	let proj = |t: &[ClassFile]| -> Value {
+		Value::Array(t.iter().map(|c| match cfkit::proj_duke::duke_to_facts(c) {
+			Ok(f) => f,
+			Err(e) => json!({"projection_error": e.0}),
+		}).collect())
+	};
+	let (fa, fb) = (proj(a), proj(b));
+	let mut paths = vec![];
+	diff_paths(&fa, &fb, String::new(), &mut paths);
+	(fa == fb, json!(paths))
+}
+
+fn diff_paths(a: &Value, b: &Value, path: String, out: &mut Vec<String>) {
+	if out.len() >= 8 || a == b {
+		return;
+	}
+	match (a, b) {
+		(Value::Object(x), Value::Object(y)) => {
+			let mut keys: Vec<&String> = x.keys().chain(y.keys()).collect();
+			keys.sort();
+			keys.dedup();
+			for k in keys {
+				match (x.get(k), y.get(k)) {
+					(Some(p), Some(q)) => diff_paths(p, q, format!("{path}/{k}"), out),
+					_ => out.push(format!("{path}/{k}")),
+				}
+			}
+		},
+		(Value::Array(x), Value::Array(y)) if x.len() == y.len() => {
+			for (i, (p, q)) in x.iter().zip(y).enumerate() {
+				diff_paths(p, q, format!("{path}/{i}"), out);
+			}
+		},
+		_ => out.push(path),
+	}
+}
+
+// ------------------------------------------------------------------------------------------------
+// generation of random cases
+
+struct Info {
+	id: String,
+	events: usize,
+	fields: usize,
+	methods: usize,
+	codes: Vec<usize>,
+	rcs: usize,
+}
+
+/// Every catalogue class duke can read completely, with the counts the generator needs to aim its choices.
+fn infos() -> Vec<Info> {
+	let mut out = vec![];
+	for (id, bytes) in catalogue() {
+		let Ok(r) = read_one(bytes, &Mask::all(), &Declines::default(), "rec") else { continue };
+		if !r.ok {
+			continue;
+		}
+		let count = |ev: &str| r.events.iter().filter(|e| e.ev == ev).count();
+		out.push(Info {
+			id: id.clone(), events: r.events.len(), fields: count("visit_field"), methods: count("visit_method"),
+			codes: r.events.iter().filter(|e| e.ev == "visit_code").map(|e| e.mi).collect(), rcs: count("visit_record_component"),
+		});
+	}
+	out
+}
+
+fn scan() -> Value {
+	let mut rows = vec![];
+	for i in infos() {
+		rows.push(json!([i.id, i.events, i.fields, i.methods, i.codes.len(), i.rcs]));
+	}
+	json!({"classes": rows, "catalogue": catalogue().len()})
+}
+
+fn rand_mask(r: &mut StdRng) -> Value {
+	let all: Vec<(&str, &str)> = LEVELS.iter().flat_map(|(l, fs)| fs.iter().map(move |f| (*l, *f))).collect();
+	let set = |m: &mut Value, lf: (&str, &str), b: bool| m[lf.0][lf.1] = Value::Bool(b);
+	match r.gen_range(0..10) {
+		0 => mask_json(true),
+		1 => { let mut m = mask_json(true); set(&mut m, *all.choose(r).unwrap(), false); m },
+		2 => { let mut m = mask_json(true); for _ in 0..2 { set(&mut m, *all.choose(r).unwrap(), false); } m },
+		3 => { let mut m = mask_json(false); set(&mut m, *all.choose(r).unwrap(), true); m },
+		4 => {
+			// one flag on, and the containers that make it reachable
+			let mut m = mask_json(false);
+			let lf = *all.choose(r).unwrap();
+			set(&mut m, lf, true);
+			match lf.0 {
+				"field" => set(&mut m, ("class", "fields"), true),
+				"method" => set(&mut m, ("class", "methods"), true),
+				"code" => { set(&mut m, ("class", "methods"), true); set(&mut m, ("method", "code"), true); },
+				"rc" => set(&mut m, ("class", "record"), true),
+				_ => {},
+			}
+			m
+		},
+		5 => {
+			// one whole level off / on
+			let (lvl, flags) = LEVELS[r.gen_range(0..LEVELS.len())];
+			let on = r.gen_bool(0.5);
+			let mut m = mask_json(!on);
+			for f in flags { set(&mut m, (lvl, *f), on); }
+			if on { set(&mut m, ("class", "fields"), true); set(&mut m, ("class", "methods"), true); set(&mut m, ("class", "record"), true); set(&mut m, ("method", "code"), true); }
+			m
+		},
+		_ => {
+			let p = *[0.15, 0.5, 0.85].choose(r).unwrap();
+			let mut m = mask_json(false);
+			for lf in &all { set(&mut m, *lf, r.gen_bool(p)); }
+			// the member containers mostly stay on, so that the member levels are exercised
+			for lf in [("class", "fields"), ("class", "methods"), ("method", "code")] { if r.gen_bool(0.8) { set(&mut m, lf, true); } }
+			m
+		},
+	}
+}
+
+fn subset(r: &mut StdRng, n: usize, p: f64) -> Vec<usize> {
+	(1..=n).filter(|_| r.gen_bool(p)).collect()
+}
+
+fn rand_declines(r: &mut StdRng, i: &Info, classes: usize) -> Value {
+	let style = r.gen_range(0..10);
+	let p = match style { 0..=2 => 0.0, 3..=6 => 0.25, _ => 0.6 };
+	let mut d = json!({
+		"classes": subset(r, classes, if classes > 1 { 0.3 } else { 0.04 }),
+		"fields": subset(r, i.fields.min(12), p), "methods": subset(r, i.methods.min(12), p),
+		"codes": Vec::<usize>::new(), "rcs": subset(r, i.rcs.min(6), p.max(0.2)),
+	});
+	// declining a code (and nothing else of that method) is its own case
+	if r.gen_bool(0.12) && !i.codes.is_empty() {
+		let k = *i.codes.choose(r).unwrap();
+		d["codes"] = json!([k]);
+		if r.gen_bool(0.5) {
+			d["fields"] = json!([]);
+			d["methods"] = json!([]);
+			d["classes"] = json!([]);
+		}
+	}
+	d
+}
+
+pub fn gen(seed: u64, n: usize) -> Result<Vec<Value>> {
+	let mut r = StdRng::seed_from_u64(seed ^ 0xC17);
+	let all = infos();
+	let small: Vec<&Info> = all.iter().filter(|i| i.events <= 260).collect();
+	let medium: Vec<&Info> = all.iter().filter(|i| i.events > 260 && i.events <= 1500).collect();
+	if small.is_empty() {
+		bail!("C17: no readable class in the catalogue");
+	}
+	let pick = |r: &mut StdRng| -> &Info {
+		if !medium.is_empty() && r.gen_bool(0.04) { medium.choose(r).unwrap() } else { small.choose(r).unwrap() }
+	};
+	let mut out = vec![];
+	while out.len() < n {
+		let k = r.gen_range(0..100);
+		let consumer = match r.gen_range(0..10) { 0 => "unit", 1 => "simple", _ => "rec" };
+		if k < 62 {
+			let i = pick(&mut r);
+			out.push(json!({"op": "mask", "cls": i.id, "mask": rand_mask(&mut r), "declines": rand_declines(&mut r, i, 1), "consumer": consumer}));
+		} else if k < 80 {
+			let cnt = r.gen_range(2..=3);
+			let cs: Vec<&Info> = (0..cnt).map(|_| *small.choose(&mut r).unwrap()).collect();
+			let mask = if r.gen_bool(0.4) { mask_json(true) } else { rand_mask(&mut r) };
+			let d = rand_declines(&mut r, cs[0], cnt);
+			out.push(json!({"op": "concat", "classes": cs.iter().map(|i| i.id.clone()).collect::<Vec<_>>(), "mask": mask, "declines": d, "consumer": consumer}));
+		} else {
+			let i = pick(&mut r);
+			let (mask, d) = if r.gen_bool(0.45) { (mask_json(true), declines_json_none()) } else { (rand_mask(&mut r), rand_declines(&mut r, i, 1)) };
+			out.push(json!({"op": "accept", "cls": i.id, "mask": mask, "declines": d}));
+		}
+	}
+	Ok(out)
+}
